@@ -124,6 +124,57 @@ def correspondence(ctx, drv):
             d.append("final candidate list")
         if d:
             ctx.disagreement("complex-tape:" + ";".join(d)[:200], dict(rep, diffs=d))
+    generated_model(ctx, reqs, metas)
+
+
+def generated_model(ctx, reqs, metas):
+    """the Lean code GENERATED from the source of Gillespie_complex_contagion (harness/pyfunc2lean.py ->
+    Gen/ComplexGen.lean), run by its own driver with the harness's callback families on the same scripted draws as the
+    implementation.  Compared: RNG-call trace, times, count columns, final candidate list with weights, and (the
+    implementation ran with full data) every node history."""
+    import fcntl, subprocess, os, json, pyfunc2lean, pyclass2lean
+    lean = common.LEAN
+    os.makedirs(os.path.join(lean, ".audit"), exist_ok=True)
+    with open(os.path.join(lean, ".audit", "gengill.lock"), "w") as lock:
+        fcntl.flock(lock, fcntl.LOCK_EX)
+        try:
+            _, e1 = pyclass2lean.regenerate()
+            _, e2 = pyfunc2lean.regenerate()
+            errors = {k: v for k, v in dict(e1, **e2).items() if k not in ("Gillespie_SIR", "Gillespie_SIS")}
+        except Exception as e:
+            errors = {"translator": "crashed: %r" % e}
+        if errors:
+            ctx.disagreement("generated-complex:translation", dict(entry="Gillespie_complex_contagion", errors=errors))
+            return
+        p = common.lake(["build", "drivercc"])
+    if p.returncode != 0:
+        ctx.disagreement("generated-complex:build", dict(entry="Gillespie_complex_contagion", log="\n".join(
+            l for l in (p.stdout + p.stderr).splitlines() if "error" in l)[:1500]))
+        return
+    exe = os.path.join(lean, ".lake", "build", "bin", "drivercc")
+    data = "\n".join(json.dumps(dict(r, full=True), separators=(",", ":")) for r in reqs) + "\n"
+    q = subprocess.run([exe], input=data, capture_output=True, text=True)
+    lines = q.stdout.splitlines()
+    if q.returncode != 0 or len(lines) != len(reqs):
+        raise RuntimeError("drivercc crashed: " + q.stderr[-1000:])
+    for (rep, out, plain, c, items, weights), line in zip(metas, lines):
+        g = json.loads(line)
+        ctx.count("generated-model-runs")
+        if not g.get("ok"):
+            ctx.disagreement("generated-complex-error", dict(rep, generated=g))
+            continue
+        d = []
+        if g["trace"] != out["trace"]:
+            d.append("RNG trace")
+        if plain["ok"] and (plain["times"] != g["times"] or plain["cols"] != g["cols"]):
+            d.append("arrays")
+        if items != g["items"] or [str(weights[v]) for v in items] != [str(F(x)) for x in g["weights"]]:
+            d.append("final candidate list")
+        hist = {h[0]: [[t, s_] for t, s_ in zip(h[1], h[2])] for h in g["history"]}
+        if [hist.get(i) for i in range(c["n"])] != out["history"]:
+            d.append("node histories")
+        if d:
+            ctx.disagreement("generated-complex-tape:" + ";".join(d), dict(rep, diffs=d))
 
 
 def one_step_law(ctx):
